@@ -1173,6 +1173,60 @@ func (it *Interp) setupIntrinsics() {
 	}
 	T["internal/bytealg.Equal"] = T["bytes.Equal"]
 
+	// strings.Builder (its copy check converts pointers to uintptr): modelled over its buf field
+	sbBuf := func(it *Interp, p Value) Ptr { return p.(Ptr).child(PathElem{I: 1}) }
+	byteSlice := types.NewSlice(types.Typ[types.Byte])
+	T["(*strings.Builder).WriteByte"] = func(it *Interp, fn *ssa.Function, a []Value) Value {
+		bp := sbBuf(it, a[0])
+		it.store(bp, it.appendValues(it.load(bp).(SliceV), types.Typ[types.Byte], []Value{a[1]}))
+		return Iface{}
+	}
+	T["(*strings.Builder).WriteString"] = func(it *Interp, fn *ssa.Function, a []Value) Value {
+		bp := sbBuf(it, a[0])
+		bs := it.stringToBytes(a[1], byteSlice).(SliceV)
+		vals := make([]Value, bs.Len)
+		for i := range vals {
+			vals[i] = it.sliceGet(bs, i)
+		}
+		it.store(bp, it.appendValues(it.load(bp).(SliceV), types.Typ[types.Byte], vals))
+		return Tuple{it.mkInt(bs.Len), Iface{}}
+	}
+	T["(*strings.Builder).Write"] = func(it *Interp, fn *ssa.Function, a []Value) Value {
+		bp := sbBuf(it, a[0])
+		bs := a[1].(SliceV)
+		vals := make([]Value, bs.Len)
+		for i := range vals {
+			vals[i] = it.sliceGet(bs, i)
+		}
+		it.store(bp, it.appendValues(it.load(bp).(SliceV), types.Typ[types.Byte], vals))
+		return Tuple{it.mkInt(bs.Len), Iface{}}
+	}
+	T["(*strings.Builder).WriteRune"] = func(it *Interp, fn *ssa.Function, a []Value) Value {
+		r := a[1].(*Term)
+		if !r.IsConst() {
+			it.outside("WriteRune of a symbolic rune")
+		}
+		bp := sbBuf(it, a[0])
+		str := string(rune(r.SInt64()))
+		vals := make([]Value, len(str))
+		for i := range vals {
+			vals[i] = it.byteTerm(str[i])
+		}
+		it.store(bp, it.appendValues(it.load(bp).(SliceV), types.Typ[types.Byte], vals))
+		return Tuple{it.mkInt(len(str)), Iface{}}
+	}
+	T["(*strings.Builder).String"] = func(it *Interp, fn *ssa.Function, a []Value) Value {
+		return it.bytesToString(it.load(sbBuf(it, a[0])).(SliceV), byteSlice)
+	}
+	T["(*strings.Builder).Len"] = func(it *Interp, fn *ssa.Function, a []Value) Value {
+		return it.mkInt(it.load(sbBuf(it, a[0])).(SliceV).Len)
+	}
+	T["(*strings.Builder).Reset"] = func(it *Interp, fn *ssa.Function, a []Value) Value {
+		it.store(sbBuf(it, a[0]), SliceV{Nil: true})
+		return nil
+	}
+	T["(*strings.Builder).Grow"] = func(it *Interp, fn *ssa.Function, a []Value) Value { return nil }
+
 	// compress/gzip: identity pass-through (DEFLATE/CRC are outside the encoder; the claims are about the
 	// layout inside the stream). NewReader returns a *gzip.Reader whose Read forwards to the wrapped reader.
 	T["compress/gzip.NewReader"] = func(it *Interp, fn *ssa.Function, a []Value) Value {
